@@ -38,10 +38,13 @@ def response(kind, train, inj, n, dt, age_extra=0.0):
     return tot
 
 
-def run(kind, train, dt, delay, interp, cob, sob, inplace, selectors):
-    syn = mk(kind, dt, delay, interp, cob, sob, inplace)
+def run(kind, train, dt, delay, interp, cob, sob, inplace, selectors, dt_built=None):
+    # dt_built: the synapse is constructed with ANOTHER step time and brought to dt through the public setter
+    syn = mk(kind, dt if dt_built is None else dt_built, delay, interp, cob, sob, inplace)
+    if dt_built is not None:
+        syn.dt = dt
     inj = [0.25 * ((i * 7) % 3) for i in range(len(train))]
-    inp = dict(kind=kind, train=list(train), dt=dt, delay=delay, interp=interp, current_overbound=cob, spike_overbound=sob, inplace=inplace)
+    inp = dict(kind=kind, train=list(train), dt=dt, delay=delay, interp=interp, current_overbound=cob, spike_overbound=sob, inplace=inplace, dt_built=dt_built)
     for n, s in enumerate(train):
         x = torch.tensor([[float(s), 0.0]])
         out = syn(x, torch.tensor([[inj[n], 0.0]])) if kind == "deltaplus" else syn(x)
@@ -150,6 +153,13 @@ def sweep(tier="quick", seed=0, unsupported=()):
                     if f is not None and not any(x["what"] == f["what"] for x in failures):
                         failures.append(f)
     for kind in ("delta", "deltaplus", "single", "double"):
+        for train in trains[:4]:
+            for dt, delay, built in ((0.5, 1.0, 1.0), (1.0, 2.0, 0.5)):
+                cases += 1
+                f = run(kind, train, dt, delay, "previous", 0.0, False, False, [0.0, dt, delay], dt_built=built)
+                if f is not None and not any(x["what"] == f["what"] for x in failures):
+                    failures.append(f)
+    for kind in ("delta", "deltaplus", "single", "double"):
         for train in trains[:6]:
             for dt, delay, tol in ((1.0, 3.0, 0.25), (0.5, 1.5, 0.1)):
                 cases += 1
@@ -172,5 +182,5 @@ def replay_native(rp):
         f = tolerance_case(i["kind"], i["train"], i["dt"], i["delay"], i["interp_tol"])
         return {"reproduced": f is not None, "failure": f}
     sel = [i["selector"]] if "selector" in i else [0.0]
-    f = run(i["kind"], i["train"], i["dt"], i["delay"], i["interp"], i["current_overbound"], i["spike_overbound"], i["inplace"], sel)
+    f = run(i["kind"], i["train"], i["dt"], i["delay"], i["interp"], i["current_overbound"], i["spike_overbound"], i["inplace"], sel, dt_built=i.get("dt_built"))
     return {"reproduced": f is not None, "failure": f}
